@@ -48,6 +48,7 @@ Definition op_eqb (a b : op) : bool :=
                       | _, _ => false end
   | OCygExit, OCygExit => true
   | ORet l, ORet l' => Nat.eqb l l'
+  | ORetStop l, ORetStop l' => Nat.eqb l l'
   | _, _ => false
   end.
 Definition out_eqb (a b : out) : bool :=
@@ -101,3 +102,12 @@ Definition w_ones : world :=
 Definition hook_xmm_agrees (c : hook_xmm_case) : bool :=
   list_eqb pair_eqb (firstn 8 (xlist (c_call_xmm w_ones (hx_hook c) 0 (xof (hx_before c))))) (firstn 8 (hx_after c)).
 Definition hook_xmm_ok (c : hook_xmm_case) : bool := ok_xmm (hx_before c) (hx_after c).
+
+(* finish case: a prefix of a tree's operations, then tracing is told to finish and the function that owns
+   slot st_slot returns; what libmcount handed back (exits, word) and the real return address of that call *)
+Record stop_case := { st_ops : list op; st_slot : nat; st_obs : out; st_expect : nat }.
+Definition stop_agrees (c : stop_case) : bool :=
+  let '(s, _) := run_ops st0 (st_ops c) in
+  out_eqb (snd (run_op s (ORetStop (st_slot c)))) (st_obs c).
+Definition stop_ok (c : stop_case) : bool :=
+  match st_obs c with URet _ w => word_eqb w (Real (st_expect c)) | _ => false end.
